@@ -59,6 +59,11 @@ structure Defects where
       definition (`sys.Room`, `sys.Authorisation`, `sys.UserAuth`, `sys.EntityRight`) are treated as data:
       a wildcard right `*` covers them (graph_database.rs:1254-1260, 1292-1298; room.rs:238-251) -/
   authEntityUnchecked : Bool
+  /-- #18 `synchronise_day` requests every announced id that passes the last-writer-wins filter, also the ids that
+      carry a node deletion record of the synchronised room (a deleted row comes back). The repair
+      (findings/C11-ingest-consults-deletion-log-v2.patch, `filter_existing_room_node`): those ids are dropped from the
+      announcement before `filter_existing`, on the tables as they are after the deletion records of the day (`gate`). -/
+  announcedDeletedRequested : Bool
 deriving Repr, DecidableEq
 
 /-- /repo as it is now, one switch per line (a repair of /repo turns its line to `false`: findings/C02-*.verif.patch).
@@ -82,7 +87,9 @@ def Defects.asImplemented : Defects :=
     -- fixed: /repo e73c9e7
     jsonAbsentUnchecked := false,
     -- fixed: /repo 4dd7eb7
-    authEntityUnchecked := false }
+    authEntityUnchecked := false,
+    -- fixed: /repo ffeda5d (findings/C11-ingest-consults-deletion-log-v2.patch, x-sync)
+    announcedDeletedRequested := false }
 
 /-- /repo at 846341e, before the second series of repairs (replace-other-entity, deletion-of-other-room,
     deletion-entity-mismatch, edge-source): the value the witnesses `C02_breaks_*` of the seven shapes are stated about, so that
@@ -90,18 +97,21 @@ def Defects.asImplemented : Defects :=
 def Defects.beforeFix : Defects :=
   { edgeSourceUnchecked := true, edgeReplaceUnchecked := true, entityChangeUnchecked := true,
     roomlessReplaceUnchecked := false, delRoomUnchecked := true, delEntityUnchecked := true,
-    edgeDelSourceUnchecked := true, jsonAbsentUnchecked := false, authEntityUnchecked := false }
+    edgeDelSourceUnchecked := true, jsonAbsentUnchecked := false, authEntityUnchecked := false,
+    announcedDeletedRequested := true }
 
 /-- /repo before any of the fixes that this check led to -/
 def Defects.beforeFixes : Defects :=
   { edgeSourceUnchecked := true, edgeReplaceUnchecked := true, entityChangeUnchecked := true,
     roomlessReplaceUnchecked := true, delRoomUnchecked := true, delEntityUnchecked := true,
-    edgeDelSourceUnchecked := true, jsonAbsentUnchecked := true, authEntityUnchecked := true }
+    edgeDelSourceUnchecked := true, jsonAbsentUnchecked := true, authEntityUnchecked := true,
+    announcedDeletedRequested := true }
 
 def Defects.none : Defects :=
   { edgeSourceUnchecked := false, edgeReplaceUnchecked := false, entityChangeUnchecked := false,
     roomlessReplaceUnchecked := false, delRoomUnchecked := false, delEntityUnchecked := false,
-    edgeDelSourceUnchecked := false, jsonAbsentUnchecked := false, authEntityUnchecked := false }
+    edgeDelSourceUnchecked := false, jsonAbsentUnchecked := false, authEntityUnchecked := false,
+    announcedDeletedRequested := false }
 
 /-! ### stored things -/
 
@@ -329,11 +339,14 @@ def addEdgesLoop (d : Defects) (s : Inst) (room : Nat) : List InEdge → List Ed
 
 /-! ### deletion records -/
 
-/-- `NodeDeletionEntry::with_previous_authors` collects the records in a map keyed by id:
-    of several records for one id the last one stays -/
-def dedupDel : List InNodeDel → List InNodeDel
-  | [] => []
-  | x :: rest => if rest.any (·.entry.id = x.entry.id) then dedupDel rest else x :: dedupDel rest
+/-- `GraphDatabaseService::delete_nodes` (since /repo a395f05): `partition(|n| seen.insert(n.id))` — the first record
+    of every row id, in the order of the answer, and the other records, in order. (`with_previous_authors` keys the
+    records of one message by row id: within one message a second record of an id would replace the first.) -/
+def splitFirst : List InNodeDel → List Nat → List InNodeDel × List InNodeDel
+  | [], _ => ([], [])
+  | x :: rest, seen =>
+    if seen.contains x.entry.id then ((splitFirst rest seen).1, x :: (splitFirst rest seen).2)
+    else (x :: (splitFirst rest (x.entry.id :: seen)).1, (splitFirst rest (x.entry.id :: seen)).2)
 
 /-- `GraphDatabase::delete_nodes` + `validate_node_deletions` on one record (no room is passed to them) -/
 def nodeDelAccepted (d : Defects) (s : Inst) (r : NodeDel) : Bool :=
@@ -352,10 +365,21 @@ def applyNodeDel (s : Inst) (r : NodeDel) : Inst :=
     nodes := s.nodes.filter fun x => !(x.room = some r.room && x.id = r.id),
     nodeLog := s.nodeLog.filter (fun x => !nodeLogKeyEq r x) ++ [r] }
 
-/-- the verdicts are taken on the table as it is before the call (`validate_node_deletions` runs on
-    the authors gathered by `with_previous_authors`), then the records are applied -/
+/-- one message `DbMessage::DeleteNodes`: the verdicts are taken on the table as it is before the message
+    (`validate_node_deletions` runs on the authors gathered by `with_previous_authors`), then the records are applied -/
+def deleteBatch (d : Defects) (s : Inst) (recs : List InNodeDel) : Inst :=
+  (recs.filter fun r => nodeDelAccepted d s r.entry).foldl (fun st r => applyNodeDel st r.entry) s
+
+/-- the loop of `delete_nodes`: a message with the first record of every id, awaited, then the same for the rest -/
+def deleteNodesLoop (d : Defects) : Nat → Inst → List InNodeDel → Inst
+  | 0, s, _ => s
+  | fuel + 1, s, recs =>
+    let s1 := deleteBatch d s (splitFirst recs []).1
+    if (splitFirst recs []).2.isEmpty then s1 else deleteNodesLoop d fuel s1 (splitFirst recs []).2
+
+/-- `delete_nodes` on the records of one answer (every turn of the loop sends at least one record) -/
 def deleteNodes (d : Defects) (s : Inst) (recs : List InNodeDel) : Inst :=
-  ((dedupDel recs).filter fun r => nodeDelAccepted d s r.entry).foldl (fun st r => applyNodeDel st r.entry) s
+  deleteNodesLoop d recs.length s recs
 
 def edgeMatches (r : EdgeDel) (e : EdgeRow) : Bool :=
   e.src = r.src && e.srcEnt = r.srcEnt && e.label = r.label && e.dst = r.dst && e.cdate = r.cdate
@@ -404,9 +428,21 @@ inductive Outcome where
   | unknownRoom
 deriving Repr, DecidableEq
 
-/-- announce, `filter_existing`, pairing of the bodies, `add_nodes`: new state and rejected ids -/
+/-- the id carries a node deletion record of the room (`Node::filter_deleted_in_room`) -/
+def deletedIn (s : Inst) (room : Nat) (id : Nat) : Bool := s.nodeLog.any fun r => r.room = room && r.id = id
+
+/-- `filter_existing_room_node`: the announced ids that carry a deletion record of the synchronised room are not
+    requested (as written before the repair: everything is handed to `filter_existing`) -/
+def gate (d : Defects) (s : Inst) (room : Nat) (anns : List (Nat × Int × Nat)) : List (Nat × Int × Nat) :=
+  if d.announcedDeletedRequested then anns else anns.filter fun a => !deletedIn s room a.1
+
+/-- what is requested from the peer: the announced ids, gated, through `filter_existing` -/
+def requested (d : Defects) (s : Inst) (room : Nat) (ns : List InNode) : List (Nat × Option NodeRow) :=
+  filterExisting s.nodes (gate d s room (announce ns []))
+
+/-- announce, gate, `filter_existing`, pairing of the bodies, `add_nodes`: new state and rejected ids -/
 def nodeStage (d : Defects) (s : Inst) (room : Nat) (ns : List InNode) : Inst × List Nat :=
-  addNodes d s room (pairBodies ns (filterExisting s.nodes (announce ns [])))
+  addNodes d s room (pairBodies ns (requested d s room ns))
 
 /-- `add_edges` once the room is known to be loaded -/
 def edgeStage (d : Defects) (s : Inst) (room : Nat) (es : List InEdge) : Inst × List Nat :=
@@ -414,7 +450,7 @@ def edgeStage (d : Defects) (s : Inst) (room : Nat) (es : List InEdge) : Inst ×
 
 /-- node insertion and what follows it -/
 def syncNodesEdges (d : Defects) (s : Inst) (room : Nat) (b : Batch) : Inst × Outcome :=
-  if (filterExisting s.nodes (announce b.nodes [])).isEmpty then (s, .done [] [])
+  if (requested d s room b.nodes).isEmpty then (s, .done [] [])
   else if !b.nodes.all (·.sigOk) then (s, .sigError .nodes)
   else
     let r := nodeStage d s room b.nodes
